@@ -30,7 +30,7 @@ m = {
     'setup_cmd': M.SETUP_CMD,
     'hooks': M.HOOKS,
     'engines': [{'name': 'pyvc', 'path': 'pyvc', 'serves_properties': sorted(M.CLAIMED),
-                 'kind_free_text': 'own deductive verifier: symbolic execution of the real /repo source (ast, re-read on every run) against sidecar contracts -> verification conditions -> z3 5.1 (cvc5 second opinion); Lean 4/Mathlib for inductive lemmas over spec functions; native replay of counter-models under /venv/bin/python'}],
+                 'kind_free_text': 'own deductive verifier: symbolic execution of the real /repo source (ast, re-read on every run) against sidecar contracts -> verification conditions -> z3 5.1 (seed portfolio; a SymPy rational-function identity back end with z3 showing every divisor non-zero for the interpolation algebra); inductive loop invariants from the sidecar; Lean 4/Mathlib for inductive lemmas over spec functions; native replay of counter-models under /venv/bin/python'}],
     'checks': checks,
     'notes': M.NOTES,
     'not_applicable': na,
